@@ -188,7 +188,7 @@ Inductive bad_dependency : cfg -> cbor -> Prop :=
 (* ------------------------------------------------------------------------------------------------------------------
    toy instances (non-vacuity examples)
    ------------------------------------------------------------------------------------------------------------------ *)
-Definition toy_keystore (n : bytes) : option (keykind * bytes) :=
+Definition toy_keystore (c : option bytes) (n : bytes) : option (keykind * bytes) :=
   if list_eqb n (s2b "ec") then Some (KEc 256, [1]) else if list_eqb n (s2b "ed") then Some (KEd25519, [2]) else None.
 Definition toy_ecdsa (k h m : bytes) (n : nat) : Z * Z := (blen m + 2 ^ 200, 5).
 Definition toy_ecdsa_verify (pk h m : bytes) (rs : Z * Z) : bool := (fst rs =? blen m + 2 ^ 200) && (snd rs =? 5).
